@@ -17,7 +17,7 @@ FIELDS = ["source", "target", "intermediate", "column_pairs", "cyto_table", "cyt
 
 def build(tier, rnd):
     n = 260 if tier == "quick" else 4000
-    g = sqlgen.Gen(random.Random(common.env.seed() * 32452843 + 3), qualify_p=0.25)
+    g = sqlgen.Gen(random.Random(common.env.seed() * 32452843 + 3), qualify_p=0.25, scalar_p=0.12)
     kinds = ["insert", "insert", "ctas", "create_view", "bare", "insert_cols", "update_from", "merge", "with_insert", "create_like", "insert_values", "drop", "rename"]
     out = []
     # the last n // 12 scripts are long ones (6-10 statements)
@@ -101,7 +101,7 @@ def run(tier):
             q = ";\n".join(sqlgen.render(s, default_schema=S, qualify_default=True) for s in stmts)
             for analyzer in (["ansi", "non-validating"] if i % 4 == 0 else ["ansi"]):
                 for mech in ("scoped", "env_after_import", "env_before_import"):
-                    jobs.append({"mech": mech, "S": S, "dialect": analyzer, "unq": unq, "q": q, "has_unq": unq != q,
+                    jobs.append({"mech": mech, "S": S, "dialect": analyzer, "unq": unq, "q": q, "has_unq": unq != q, "phantoms": phantoms(stmts),
                                  "tags": sorted(set().union(*[s.tags() for s in stmts]) | set().union(*[set(sqlgen.risk(s)) for s in stmts]))})
     # tables that exist only as string arguments (vertica swap_partitions_between_tables): created without an explicit schema
     for i in range(4):
@@ -140,7 +140,7 @@ def run(tier):
             for d in ("ansi", "non-validating") if i % 2 else ("ansi",):
                 for mech in ("scoped", "env_after_import", "env_before_import"):
                     jobs.append({"mech": mech, "S": S, "dialect": d, "unq": unq, "q": q, "has_unq": True, "tags": ["stmt.with_catalog"], "metadata": md})
-    for k in ("pairs_compared", "env_before_import_compared", "scoped_compared", "env_after_import_compared", "no_default_uniform_checked", "env_after_a_closed_scope_compared"):
+    for k in ("pairs_compared", "env_before_import_compared", "scoped_compared", "env_after_import_compared", "no_default_uniform_checked", "env_after_a_closed_scope_compared", "scoped_after_the_same_text_under_another_schema_compared"):
         run_.need(k)
     ref_cases = {}
     for j in jobs:
@@ -163,7 +163,16 @@ def run(tier):
                           {"sql": j["unq"], "dialect": j["dialect"], "want": [], **_md(j), "env": {"SQLLINEAGE_DEFAULT_SCHEMA": j["S"]}, "config": {"LATERAL_COLUMN_ALIAS_REFERENCE": False}}] for j in hist], timeout=240)
     for j, (st_, rs) in zip(hist, hres):
         results[id(j)] = (st_, rs[1] if st_ == "ok" else rs)
-    jobs = jobs + hist
+    # same-text history: the very same script was analysed a moment ago in this process under ANOTHER default schema (anything remembered per text
+    # must not carry the earlier schema over)
+    hist2 = [dict(j, mech="scoped_after_the_same_text_under_another_schema") for j in live if j["mech"] == "scoped" and j["has_unq"]][:: (2 if tier == "quick" else 1)]
+    with Pool() as pool:
+        h2res = pool.map("vlib.observe:run_sequence",
+                         [[{"sql": j["unq"], "dialect": j["dialect"], "want": [], **_md(j), "config": {"DEFAULT_SCHEMA": "stale_zz"}},
+                           {"sql": j["unq"], "dialect": j["dialect"], "want": [], **_md(j), "config": {"DEFAULT_SCHEMA": j["S"]}}] for j in hist2], timeout=240)
+    for j, (st_, rs) in zip(hist2, h2res):
+        results[id(j)] = (st_, rs[1] if st_ == "ok" else rs)
+    jobs = jobs + hist + hist2
     for S in ("zs_fresh", "sa"):
         sub = [j for j in jobs if j["mech"] == "env_before_import" and j["S"] == S]
         if not sub:
@@ -224,7 +233,49 @@ def _resort(x, S):
     return y
 
 
+def phantoms(stmts):
+    """names that known findings turn into phantom tables of a select-item sub-query: outer aliases used by correlated references (KF-43) and the
+    schema part of schema.table.column references inside such a sub-query (KF-39)"""
+    corr, sch = set(), set()
+    for st in stmts:
+        tags = st.tags()
+        if "select.scalar_subquery" not in tags:
+            continue
+        for ex in sqlgen.all_exprs(st):
+            if ex.kind == "col" and getattr(ex, "outer", False) and ex.q:
+                corr.add(ex.q)
+            if ex.kind == "col" and ex.q and getattr(ex, "qfull", None):
+                sch.add(ex.qfull.split(".")[0])
+    return {"KF-43": sorted(corr), "KF-39": sorted(sch)}
+
+
+def _resort_names(x, S, names):
+    import json
+
+    t = json.dumps(x)
+    for n in names:
+        t = re.sub(r"(?<![\w.])(?:<default>|%s)\.%s(?![\w])" % (re.escape(S), re.escape(n)), "?." + n, t)
+    y = json.loads(t)
+    # a phantom named after an un-aliased outer table coincides with the real table on the default-schema side: duplicates are dropped
+    uniq = lambda xs: sorted({json.dumps(d, sort_keys=True) for d in xs})  # noqa: E731
+    if isinstance(y, dict) and "nodes" in y:
+        return {"nodes": uniq(y["nodes"]), "edges": uniq(y["edges"])}
+    elif isinstance(y, list):
+        return uniq(y)
+    return y
+
+
 def classify(j, diff, a, e):
+    # phantom tables of select-item sub-queries (KF-43: the outer alias of a correlated reference; KF-39: the schema part of schema.table.column)
+    # exist on both sides; only their schema differs - the default on one side, the placeholder on the other. Nothing but those names may differ.
+    ph = j.get("phantoms") or {}
+    for kfid in ("KF-43", "KF-39"):
+        names = ph.get(kfid) or []
+        if names and all(_resort_names(a[f], j["S"], names) == _resort_names(e[f], j["S"], names) for f in diff):
+            return kfid
+    allnames = (ph.get("KF-43") or []) + (ph.get("KF-39") or [])
+    if ph.get("KF-43") and ph.get("KF-39") and all(_resort_names(a[f], j["S"], allnames) == _resort_names(e[f], j["S"], allnames) for f in diff):
+        return "KF-43"
     # KF-32 seen through the default schema: the qualifier of a relation the analyzer lost falls through to Table(qualifier),
     # which gets the default schema on one side and the placeholder on the other (the text says nothing about that qualifier's schema)
     for tag, kfid in (("where.in_subquery_comma_join", "KF-32"),):
